@@ -151,6 +151,7 @@ static const char *special_doubles[] = {"0000000000000000", "8000000000000000", 
 
 void hx_gen(Rng &r, const std::string &tier)
 {
+    fix_aslr();
     bool th = tier == "thorough";
     for (int t = 0; t < 130; t++)
         emit("tc " + std::to_string(t), "class-table");
@@ -198,3 +199,4 @@ void hx_gen(Rng &r, const std::string &tier)
             emit("mld " + tohex(DenseMatrix(rr, cc, v).dumps()), "matrix-ld");
     }
 }
+// (c19_gen.h revision 4: guarded generator, ASLR off)
